@@ -259,6 +259,25 @@ def r3(ctx, facts):
                 seen, cs, bins = field_slice(b, tok)
                 from_elem = any(l <= b.argc and l >= 1 for l, _ in seen) and not bins
                 r.instance("walker-token-is-the-ring-token:" + nm, from_elem, "the list filed under a ring token must be computed for that token", c.span)
+    # every token of the ring gets an entry: nothing between `ring.iter()` and `TokenRing::new` drops or merges tokens
+    DROPPING = ("dedup", "dedup_by", "dedup_by_key", "dedup_with_count", "filter", "filter_map", "step_by", "skip", "skip_while", "take", "take_while", "unique", "unique_by", "coalesce", "batching", "flatten")
+    for b in fam:
+        for bb, c in b.calls():
+            if bb in b.live_blocks and (c.name or "").endswith("TokenRing::<ElemT>::new") and c.args:
+                sl_ = field_slice(b, c.args[0])
+                names_ = {(x.decl or x.name or "").split("::")[-1] for x in sl_[1]}
+                # iterators built by a local closure (`produce_replica_ring_iter`) are part of the chain
+                for l_, _w in sl_[0]:
+                    for d_ in b.defs.get(l_, []):
+                        if d_[0] == "call":
+                            res_ = d_[2].callee.get("res") or ""
+                            cbx = facts.body(res_) if "{closure" in res_.split("::")[-1] else None
+                            if cbx is not None:
+                                names_ |= {(x.decl or x.name or "").split("::")[-1] for bbx, x in cbx.calls() if bbx in cbx.live_blocks}
+                bad_ = sorted(names_ & set(DROPPING))
+                r.instance("every-ring-token-gets-an-entry:" + fn_short(b.path), not bad_,
+                           "the precomputed ring is built through %s: tokens are dropped or merged before TokenRing::new, but an entry answers for the interval that ENDS at its token - a token between two "
+                           "merged vnodes resolves to the next node's list" % bad_, c.span)
     for nm, n in walkers.items():
         r.instance("lists-come-from:" + nm, n >= 1, "PrecomputedReplicas::compute must obtain its lists from ReplicationInfo::%s (found %d calls)" % (nm, n), cb.span)
     # no other producer of replica lists inside compute: every TokenRing::new argument is an iterator built in the family
